@@ -714,9 +714,16 @@ def r11(ctx, facts):
     c18_r5(ctx, facts)
 
 
+def r12(ctx, facts):
+    """shared with C14 (stated there as R2): the EXECUTE re-sent after UNPREPARED carries the caller's parameters - paging state,
+    page size, consistencies, values - exactly as the first frame did"""
+    from .c14 import r2_r3 as c14_r2_r3
+    c14_r2_r3(ctx, facts)
+
+
 def check(ctx):
     facts = inline_view(ctx.facts("default"))
-    for fn in (r1_r2, r6, r4, r5, r7, r8, r9, r10, r11):
+    for fn in (r1_r2, r6, r4, r5, r7, r8, r9, r10, r11, r12):
         try:
             fn(ctx, facts)
         except AnchorLost as ex:
